@@ -59,6 +59,16 @@ def load_constants(paths):
                     out[n.targets[0].id] = (s_lit(v.value), "str")
                 elif isinstance(v, ast.List) and all(isinstance(e, ast.Name) and e.id in out for e in v.elts):
                     out[n.targets[0].id] = ("[" + "; ".join(out[e.id][0] for e in v.elts) + "]", "list str")
+                elif isinstance(v, ast.List) and v.elts and all(isinstance(e, ast.Constant) and isinstance(e.value, str) for e in v.elts):
+                    out[n.targets[0].id] = ("[" + "; ".join(s_lit(e.value) for e in v.elts) + "]", "list str")
+            elif isinstance(n, ast.AugAssign) and isinstance(n.op, ast.Add) and isinstance(n.target, ast.Name) and isinstance(n.value, ast.Name) \
+                    and n.target.id in out and n.value.id in out and out[n.target.id][1] == out[n.value.id][1] == "list str":
+                # NAME += OTHER at module level: the list every later reader sees
+                out[n.target.id] = ("(%s ++ %s)" % (out[n.target.id][0], out[n.value.id][0]), "list str")
+            elif isinstance(n, (ast.AugAssign, ast.Assign, ast.AnnAssign, ast.Delete)):
+                for t in ([n.target] if not isinstance(n, (ast.Assign, ast.Delete)) else n.targets):
+                    if isinstance(t, ast.Name):
+                        out.pop(t.id, None)          # assigned in a way that is not understood: not a known constant
     return out
 
 
@@ -114,7 +124,7 @@ class Fn:
             ops = {ast.Add: "+", ast.Sub: "-", ast.Mult: "*"}
             if type(e.op) in ops and ta == tb == "Z":
                 return "(%s %s %s)" % (a, ops[type(e.op)], b), "Z"
-            if isinstance(e.op, ast.Add) and ta == tb and ta in ("cfg", "list str"):
+            if isinstance(e.op, ast.Add) and ta == tb and (ta in ("cfg", "str") or ta.startswith("list ")):
                 return "(%s ++ %s)" % (a, b), ta
             raise Unsupported("binary %s on %s, %s" % (type(e.op).__name__, ta, tb))
         if isinstance(e, ast.BoolOp):
@@ -350,10 +360,19 @@ class Fn:
         raise Unsupported("comparison %s on %s, %s" % (type(op).__name__, tx, ty))
 
     def call(self, e):
-        if e.keywords:
-            raise Unsupported("keyword arguments")
         f = e.func
         pat = dotted(f)
+        if e.keywords and pat in self.spec.get("kwcalls", {}) and not e.args:
+            # a declared constructor called with keywords: the arguments in the declared order
+            head, names, argtys, rty = self.spec["kwcalls"][pat]
+            given = {k.arg: k.value for k in e.keywords}
+            if sorted(given) != sorted(names):
+                raise Unsupported("call %s with keywords %s" % (pat, sorted(given)))
+            args = [self.expr(given[n]) for n in names]
+            args = [self.coerce(a, t, w) for (a, t), w in zip(args, argtys)]
+            return "(" + " ".join([self.subst(head)] + args) + ")", rty
+        if e.keywords:
+            raise Unsupported("keyword arguments")
         if pat is None and isinstance(f, ast.Attribute) and isinstance(f.value, ast.Call) and dotted(f.value.func) == "super" \
                 and not f.value.args and not f.value.keywords:
             pat = "super()." + f.attr
@@ -401,6 +420,11 @@ class Fn:
         if isinstance(f, ast.Name) and f.id == "str" and len(e.args) == 1 and self.expr(e.args[0])[1] == "nat":
             self.notes.append("str(uuid) is the identity on handles (a handle is an opaque token)")
             return self.expr(e.args[0])
+        if isinstance(f, ast.Name) and f.id == "tuple" and len(e.args) == 1 and self.expr(e.args[0])[1].startswith("list "):
+            self.notes.append("tuple(x) of a value declared a sequence is its elements in order (a snapshot of them)")
+            return self.expr(e.args[0])
+        if isinstance(f, ast.Name) and f.id == "str" and len(e.args) == 1 and self.expr(e.args[0])[1] == "Z":
+            return "(py_str_int %s)" % self.expr(e.args[0])[0], "str"
         if isinstance(f, ast.Name) and f.id == "str" and len(e.args) == 1:
             a, ta = self.expr(e.args[0])
             if ta == "str":
@@ -482,6 +506,11 @@ class Fn:
             return self.block(rest)
         if isinstance(st, ast.Expr) and isinstance(st.value, ast.Constant) and isinstance(st.value.value, str):
             return self.block(rest)
+        if isinstance(st, ast.ClassDef) and st.name in self.spec.get("local_classes", {}):
+            self.notes.append("class %s (defined inside the function) is declared: %s" % (st.name, self.spec["local_classes"][st.name]))
+            return self.block(rest)
+        if isinstance(st, ast.For) and not st.orelse and isinstance(st.target, ast.Name) and self.has_break(st.body):
+            return self.for_with_break(st, rest)
         if isinstance(st, ast.Raise) and st.cause is None and st.exc is not None:
             name = dotted(st.exc.func) if isinstance(st.exc, ast.Call) else dotted(st.exc)
             return self.raised(name)
@@ -658,14 +687,14 @@ class Fn:
             return "(match find (fun %s => %s) %s with Some %s => %s | None => %s end)" % (x, self.truth(c, tc), seq, x, found, after)
         if isinstance(st, ast.Expr) and isinstance(st.value, ast.Call) and isinstance(st.value.func, ast.Attribute) \
                 and st.value.func.attr == "append" and len(st.value.args) == 1 and isinstance(st.value.func.value, ast.Name) \
-                and st.value.func.value.id in self.env and self.env[st.value.func.value.id][1] == "list str" \
+                and st.value.func.value.id in self.env and self.env[st.value.func.value.id][1].startswith("list ") \
                 and st.value.func.value.id in self.spec.get("local_lists", []):
             # x.append(e) on a list this function built itself (declared local): x becomes x ++ [e]
             name = st.value.func.value.id
             a, ta = self.expr(st.value.args[0])
-            if ta != "str":
-                raise Unsupported("append of a %s" % ta)
-            return self.bind(name, "(%s ++ [%s])" % (self.env[name][0], a), "list str", rest)
+            if "list " + ta != self.env[name][1]:
+                raise Unsupported("append of a %s to a %s" % (ta, self.env[name][1]))
+            return self.bind(name, "(%s ++ [%s])" % (self.env[name][0], a), self.env[name][1], rest)
         if isinstance(st, ast.Assign) and len(st.targets) == 1 and isinstance(st.targets[0], ast.Name) \
                 and isinstance(st.value, ast.Call) and dotted(st.value.func) in self.spec.get("eff_calls", {}) and not st.value.keywords:
             # x = <declared call that answers a value AND changes declared state>:   let '(x, state') := f args state
@@ -790,6 +819,105 @@ class Fn:
             self.notes.append("`with %s:` - the body is one atomic step (the lock); interleavings are not part of this translation" % dotted(st.items[0].context_expr))
             return self.block(list(st.body) + list(rest))
         raise Unsupported("statement %s" % type(st).__name__)
+
+    @staticmethod
+    def has_break(stmts):
+        for x in stmts:
+            if isinstance(x, ast.Break):
+                return True
+            if isinstance(x, ast.If) and (Fn.has_break(x.body) or Fn.has_break(x.orelse)):
+                return True
+        return False
+
+    def for_with_break(self, st, rest):
+        """for x in L: ... if C: break ... local.append(E) ... local += n        (locals of this function only)
+           == a fold over L whose accumulator is (left the loop?, the locals the body assigns); once the loop is left the
+           remaining elements change nothing."""
+        seq, ts_ = self.expr(st.iter)
+        if not ts_.startswith("list "):
+            raise Unsupported("for over a %s" % ts_)
+        carried = []
+
+        def targets(stmts):
+            for x in stmts:
+                if isinstance(x, ast.If):
+                    targets(x.body)
+                    targets(x.orelse)
+                elif isinstance(x, ast.AugAssign) and isinstance(x.target, ast.Name):
+                    carried.append(x.target.id)
+                elif isinstance(x, ast.Assign) and len(x.targets) == 1 and isinstance(x.targets[0], ast.Name):
+                    carried.append(x.targets[0].id)
+                elif isinstance(x, ast.Expr) and isinstance(x.value, ast.Call) and isinstance(x.value.func, ast.Attribute) \
+                        and x.value.func.attr == "append" and isinstance(x.value.func.value, ast.Name):
+                    carried.append(x.value.func.value.id)
+                elif isinstance(x, (ast.Break, ast.Continue)) or (isinstance(x, ast.Expr) and isinstance(x.value, ast.Constant)):
+                    pass
+                else:
+                    raise Unsupported("statement %s in a loop with break" % type(x).__name__)
+        targets(st.body)
+        carried = sorted(set(carried))
+        for n in carried:
+            if n not in self.env or n == st.target.id:
+                raise Unsupported("%s is first assigned inside the loop" % n)
+        saved = dict(self.env)
+        x = self.new(st.target.id + "_")
+        inner = {n: self.new(n + "_") for n in carried}
+        for n in carried:
+            self.env[n] = (inner[n], saved[n][1])
+        self.env[st.target.id] = (x, ts_[len("list "):])
+
+        def tup(flag):
+            return "(" + ", ".join([flag] + [self.env[n][0] for n in carried]) + ")"
+
+        def go(stmts):
+            if not stmts:
+                return tup("false")
+            s0, more = stmts[0], stmts[1:]
+            if isinstance(s0, ast.Break):
+                return tup("true")
+            if isinstance(s0, ast.Continue):
+                return tup("false")
+            if isinstance(s0, ast.Expr) and isinstance(s0.value, ast.Constant):
+                return go(more)
+            if isinstance(s0, ast.If):
+                c, tc = self.expr(s0.test)
+                env0 = dict(self.env)
+                a = go(list(s0.body) + list(more))
+                self.env = dict(env0)
+                b = go(list(s0.orelse) + list(more))
+                self.env = env0
+                return "(if %s then %s else %s)" % (self.truth(c, tc), a, b)
+            if isinstance(s0, ast.Expr):       # append
+                name = s0.value.func.value.id
+                if name not in self.spec.get("local_lists", []) or len(s0.value.args) != 1:
+                    raise Unsupported("append to %s" % name)
+                a, ta = self.expr(s0.value.args[0])
+                if "list " + ta != self.env[name][1]:
+                    raise Unsupported("append of a %s to a %s" % (ta, self.env[name][1]))
+                v, tv = "(%s ++ [%s])" % (self.env[name][0], a), self.env[name][1]
+            elif isinstance(s0, ast.AugAssign):
+                name = s0.target.id
+                v, tv = self.expr(ast.BinOp(left=s0.target, op=s0.op, right=s0.value))
+            else:
+                name = s0.targets[0].id
+                v, tv = self.expr(s0.value)
+            if tv != self.env[name][1]:
+                raise Unsupported("%s changes its type in the loop (%s to %s)" % (name, self.env[name][1], tv))
+            n = self.new(name + "_")
+            self.env[name] = (n, tv)
+            return "(let %s := %s in %s)" % (n, v, go(more))
+        pat_in = "(" + ", ".join(["brk_"] + [inner[n] for n in carried]) + ")"
+        body = go(list(st.body))
+        self.env = saved
+        init = "(" + ", ".join(["false"] + [saved[n][0] for n in carried]) + ")"
+        outs = {n: self.new(n + "_") for n in carried}
+        for n in carried:
+            self.env[n] = (outs[n], saved[n][1])
+        pat_out = "(" + ", ".join(["_"] + [outs[n] for n in carried]) + ")"
+        self.notes.append("for ... break: a fold whose accumulator says whether the loop was left; later elements then change nothing")
+        acc_ty = " * ".join(["bool"] + [saved[n][1] if " " not in saved[n][1] else "(%s)" % saved[n][1] for n in carried])
+        return "(let '%s := fold_left (fun (acc_ : %s) (%s : %s) => let '%s := acc_ in if brk_ then acc_ else %s) %s %s in %s)" % (
+            pat_out, acc_ty, x, ts_[len("list "):], pat_in, body, seq, init, self.block(rest))
 
     @staticmethod
     def only_local_assigns(stmts):
@@ -1081,6 +1209,25 @@ SPECS = [
          eff_calls={"process_variable": dict(fn="(fun (_ : unit) v_ => process v_ {<collector>})", args=["unit", "V"], ret="(R * bool)", updates=["<collector>"])},
          stmt_calls={"node.parent.add_child": dict(fn="(fun r_ => attach_to_parent node r_ {<collector>})", updates=["<collector>"], args=["R"]),
                      "node.add_children": dict(fn="add_children {node.children} (depth_of node)", updates=["node.children"], args=["list N"])}),
+    # ---- child discovery: the depth gate, the collection-size cap, private-name correction (C05, C06)
+    dict(group="Children", name="gen_correct_names", path="processor/variable_processor.py", cls=None, func="correct_names",
+         params="(name val : str)", ret="str", args=["name", "val"], env={"name": ("name", "str"), "val": ("val", "str")}),
+    dict(group="Children", name="gen_process_list", path="processor/variable_processor.py", cls=None, func="process_list_breadth_first",
+         params="{N V P : Type} (mk_node : str -> V -> P -> N) (max_collection_size : Z) (parent_node : P) (value : list V)", ret="list N",
+         args=["var_collector", "parent_node", "value"],
+         env={"var_collector.max_collection_size": ("max_collection_size", "Z"), "parent_node": ("parent_node", "P"), "value": ("value", "list V")},
+         empty_lists={"nodes": "list N"}, local_lists=["nodes"],
+         kwcalls={"Node": ("(fun nv_ p_ => mk_node (fst nv_) (snd nv_) p_)", ["value", "parent"], ["(str * V)", "P"], "N")},
+         calls={"NodeValue": ("pair", ["str", "V"], "(str * V)")}),
+    dict(group="Children", name="gen_process_child_nodes", path="processor/variable_processor.py", cls=None, func="process_child_nodes",
+         params="{N V T : Type} (type_of : V -> T) (type_name : T -> str) (find_children : V -> T -> list N) (max_var_depth : Z) "
+                "(var_value : V) (frame_depth : Z)", ret="list N",
+         args=["var_collector", "variable_id", "var_value", "frame_depth"], constants=["processor/variable_processor.py"],
+         env={"var_value": ("var_value", "V"), "frame_depth": ("frame_depth", "Z"), "var_collector.max_var_depth": ("max_var_depth", "Z"),
+              "variable_type.__name__": ("(type_name {variable_type})", "str"), "var_collector": ("tt", "unit")},
+         calls={"type": ("type_of", ["V"], "T"), "VariableParent": ("tt", [], "unit"),
+                "find_children_for_parent": ("(fun (_ _ : unit) => find_children)", ["unit", "unit", "V", "T"], "list N")},
+         local_classes={"VariableParent": "its add_child appends the child to the entry of variable_id (Collector.attach, tied by correspondence)"}),
     # ---- the bounded attribute store (C18)
     dict(group="Store", name="gen_setitem", path="api/attributes/__init__.py", cls="BoundedAttributes", func="__setitem__",
          params="(cap vlimit : option Z) (immutable : bool) (items : list (str * cval)) (dropped : Z) (key : str) (value : val)",
@@ -1127,6 +1274,7 @@ GROUPS = {           # generated file -> (imports, which properties' theorems ar
     "Limits": ("From Deep Require Import Base Limiter PureSupport.", ["C04"]),
     "Match": ("From Deep Require Import Base Match PureSupport.", ["C03"]),
     "Collect": ("From Deep Require Import Base PureSupport.", ["C05"]),
+    "Children": ("From Deep Require Import Base PureSupport.", ["C05", "C02"]),
     "Render": ("From Deep Require Import Base PureSupport.", ["C02"]),
     "Truth": ("From Deep Require Import Base Config PureSupport.", ["C10", "C19"]),
     "Gate": ("From Deep Require Import Base Config Limiter Cond PureSupport.\nFrom DeepGen Require Import PTruth.", ["C10"]),
